@@ -389,3 +389,44 @@ func genChain(r *rng, o chainOpts) *ccase {
 	}
 	return c
 }
+
+// ifaceout: chains with providers that *output* interface-typed values: a source that is Loose for
+// an interface, a decorator func(I) I, and consumers of I; all three static-eligible or not.
+func init() {
+	streams["ifaceout"] = &stream{gen: func(r *rng) string {
+		c := genChain(r, chainOpts{moreStatic: r.chance(1, 2)})
+		addDecoMotif(r, c)
+		return c.encode()
+	}, run: runChain}
+}
+
+func addDecoMotif(r *rng, c *ccase) {
+	pairs := [][2]int{{pT0, pI0}, {pT1, pI1}, {pT2, pI2}, {pU0, pJ0}, {pT1, pI0}, {pT3, pI2}}
+	pr := pairs[r.intn(len(pairs))]
+	t, i := tcOf(pr[0]), tcOf(pr[1])
+	n := maxPid(c)
+	ann := func() int {
+		if r.chance(1, 2) {
+			return aCacheable
+		}
+		return 0
+	}
+	src := &cprovider{pid: n + 1, shape: 2, outs: []int{t}, loose: []int{i}, annots: ann()}
+	dec := &cprovider{pid: n + 2, shape: 2, ins: []int{i}, outs: []int{i}, annots: ann()}
+	use := &cprovider{pid: n + 3, shape: 2, ins: []int{i}, annots: ann()}
+	if r.chance(2, 3) {
+		// a consumer with an output of its own can be a static injector
+		use.outs = []int{tcOf(pT4 + r.intn(4))}
+		use.annots |= aDesired
+	}
+	if r.chance(1, 3) {
+		dec.annots |= aDesired
+	}
+	if r.chance(1, 4) {
+		// a second decorator
+		dec2 := &cprovider{pid: n + 4, shape: 2, ins: []int{i}, outs: []int{i}, annots: ann()}
+		c.provs = append([]*cprovider{src, dec, dec2, use}, c.provs...)
+		return
+	}
+	c.provs = append([]*cprovider{src, dec, use}, c.provs...)
+}
